@@ -28,21 +28,35 @@ fn conv(args: &[String]) {
         let ty = match it.next() { Some(t) => t.to_string(), None => { writeln!(o).unwrap(); continue; } };
         let toks: Vec<String> = it
             .map(|s| {
-                let e: Fr = util::f_from_str(s);
+                let efr = || -> Fr { util::f_from_str(s) };
                 match ty.as_str() {
-                    "G1" => util::ser_hex(&util::exp_g::<G1Affine>(e)),
-                    "G2" => util::ser_hex(&util::exp_g::<G2Affine>(e)),
+                    "G1" => util::ser_hex(&util::exp_g::<G1Affine>(efr())),
+                    "G2" => util::ser_hex(&util::exp_g::<G2Affine>(efr())),
                     t if t.starts_with("G1@") => {
                         use ark_ec::{AffineRepr, CurveGroup};
                         use ark_serialize::CanonicalDeserialize;
                         let b = G1Affine::deserialize_compressed(&util::unhex(&t[3..])[..]).unwrap();
-                        util::ser_hex(&(b.into_group() * e).into_affine())
+                        util::ser_hex(&(b.into_group() * efr()).into_affine())
                     }
                     t if t.starts_with("G2@") => {
                         use ark_ec::{AffineRepr, CurveGroup};
                         use ark_serialize::CanonicalDeserialize;
                         let b = G2Affine::deserialize_compressed(&util::unhex(&t[3..])[..]).unwrap();
-                        util::ser_hex(&(b.into_group() * e).into_affine())
+                        util::ser_hex(&(b.into_group() * efr()).into_affine())
+                    }
+                    t if t.starts_with("EDL@") => {
+                        // one token = the coefficients (comma separated) of a combination of the listed Edwards points
+                        use ark_ec::{AffineRepr, CurveGroup};
+                        use ark_serialize::CanonicalDeserialize;
+                        use ark_ed_on_bls12_381::{EdwardsAffine, Fr as EdFr};
+                        let basis: Vec<EdwardsAffine> = t[4..].split(',').map(|h| EdwardsAffine::deserialize_compressed(&util::unhex(h)[..]).unwrap()).collect();
+                        let mut acc = <EdwardsAffine as AffineRepr>::Group::default();
+                        for (k, es) in s.split(',').enumerate() {
+                            if es.is_empty() { continue; }
+                            let e: EdFr = util::f_from_str(es);
+                            if k < basis.len() { acc += basis[k].into_group() * e; }
+                        }
+                        util::ser_hex(&acc.into_affine())
                     }
                     _ => panic!("conv: unknown type {}", ty),
                 }
